@@ -576,3 +576,392 @@ Proof.
        destruct (IH _ _ _ _ E2 Hrest B) as [A2 B2];
        inversion H; subst; split; [unfold full_trace in *; cbn [flat_map fst]; apply sees_app; assumption|exact B2]).
 Qed.
+
+(* ------------------------------------------------------------------ order and at-most-once of the stamps *)
+(* The run variables evolve only through the built-in work of the callbacks; a handleHooks pass
+   never touches them.  [proj] is what the built-in work reads and writes. *)
+
+Definition rvc := (rvars * N * N)%type.          (* run variables, logical clock, run counter *)
+Definition proj (s : est) : rvc := (e_rv s, e_clock s, e_ctr s).
+
+Definition soe (x : rvc) : rvc :=
+  let '(r, c, k) := x in if is_empty (rv_soeor r) then (upd_soeor (SSet c) r, N.succ c, k) else x.
+Definition eoe (x : rvc) : rvc :=
+  let '(r, c, k) := x in if is_empty (rv_eoeor r) then (upd_eoeor (SSet c) r, N.succ c, k) else x.
+Definition bbp (e : evt) (x : rvc) : rvc :=
+  match e with
+  | START_ACTIVITY =>
+    let '(r, c, k) := x in
+    (mkRv (N.succ k) (Some (N.succ k)) (SSet c) SEmpty SEmpty SEmpty, N.succ c, N.succ k)
+  | STOP_ACTIVITY | GO_ERROR => soe x
+  | _ => x
+  end.
+Definition blp (src : st) (x : rvc) : rvc := match src with RUNNING => soe x | _ => x end.
+Definition bap (e : evt) (x : rvc) : rvc :=
+  match e with
+  | START_ACTIVITY => let '(r, c, k) := x in (upd_eosor (SSet c) r, N.succ c, k)
+  | STOP_ACTIVITY => let '(r, c, k) := x in (upd_eoeor (SSet c) r, N.succ c, k)
+  | GO_ERROR => eoe x
+  | _ => x
+  end.
+Definition drp (e : evt) (x : rvc) : rvc :=
+  match e with
+  | STOP_ACTIVITY => let '(r, c, k) := x in (mkRv 0 None (rv_sosor r) (rv_eosor r) (rv_soeor r) (rv_eoeor r), c, k)
+  | _ => x
+  end.
+Definition zrp (x : rvc) : rvc :=
+  let '(r, c, k) := x in (mkRv 0 (rv_var r) (rv_sosor r) (rv_eosor r) (rv_soeor r) (rv_eoeor r), c, k).
+
+Lemma soe_proj s : proj (fst (set_soeor_if_empty s)) = soe (proj s).
+Proof. destruct s as [a p r c k sl]. unfold proj, soe, set_soeor_if_empty. cbn. destruct (is_empty (rv_soeor r)); reflexivity. Qed.
+Lemma eoe_proj s : proj (fst (set_eoeor_if_empty s)) = eoe (proj s).
+Proof. destruct s as [a p r c k sl]. unfold proj, eoe, set_eoeor_if_empty. cbn. destruct (is_empty (rv_eoeor r)); reflexivity. Qed.
+
+Lemma bb_proj e s : proj (fst (builtin_before e s)) = bbp e (proj s).
+Proof.
+  unfold builtin_before, bbp. destruct e; try reflexivity;
+    pose proof (soe_proj s) as P; destruct (set_soeor_if_empty s); exact P.
+Qed.
+Lemma bl_proj src s : proj (builtin_leave src s) = blp src (proj s).
+Proof. unfold builtin_leave, blp. destruct src; try reflexivity. apply soe_proj. Qed.
+Lemma ba_proj e err s : proj (fst (builtin_after e err s)) = bap e (proj s).
+Proof.
+  unfold builtin_after, bap. destruct e; try reflexivity.
+  pose proof (eoe_proj s) as P; destruct (set_eoeor_if_empty s); exact P.
+Qed.
+Lemma dr_proj e s : proj (drop_run_number e s) = drp e (proj s).
+Proof. destruct e; reflexivity. Qed.
+Lemma zr_proj s : proj (zero_rn s) = zrp (proj s).
+Proof. reflexivity. Qed.
+
+Lemma run_pass_proj hooks orc m pred s s' t p :
+  run_pass hooks orc m pred s = (s', t, p) -> proj s' = proj s /\ e_st s' = e_st s.
+Proof. intro H. apply run_pass_frame in H. destruct H as (A & B & C & D). unfold proj. rewrite B, C, D. auto. Qed.
+
+(* what one transition can do to the run variables (no outcome crashes: C09_no_crash) *)
+Inductive tr_post (e : evt) (src d : st) (x : rvc) : rvc -> st -> Prop :=
+| TPsame : tr_post e src d x x src
+| TPbefore : tr_post e src d x (bbp e x) src
+| TPleave : tr_post e src d x (blp src (bbp e x)) src
+| TPzero : e = START_ACTIVITY -> tr_post e src d x (zrp (blp src (bbp e x))) src
+| TPdone : tr_post e src d x (drp e (bap e (blp src (bbp e x)))) d.
+
+Lemma transition_post hooks orc e b s s' t r d :
+  transition hooks orc e b s = (s', t, r) -> dst_of e (e_st s) = Some d ->
+  tr_post e (e_st s) d (proj s) (proj s') (e_st s').
+Proof.
+  intros H Hd. pose proof (transition_nocrash _ _ _ _ _ _ _ _ H) as Hr.
+  unfold transition in H. rewrite Hd in H.
+  unfold before_stage, leave_stage, enter_stage, after_stage in H.
+  destruct (run_pass hooks orc (MBefore e) wneg s) as [[s1 t1] p1] eqn:E1.
+  destruct (run_pass_proj _ _ _ _ _ _ _ _ E1) as [R1 S1].
+  destruct p1; [|inversion H; subst; rewrite R1, S1; constructor|inversion H; subst; contradiction].
+  pose proof (bb_proj e s1) as Rb. pose proof (builtin_before_st e s1) as Sb.
+  destruct (builtin_before e s1) as [s2 tb]. cbn [fst] in Rb, Sb.
+  destruct (run_pass hooks orc (MBefore e) wnonneg s2) as [[s3 t3] p3] eqn:E3.
+  destruct (run_pass_proj _ _ _ _ _ _ _ _ E3) as [R3 S3].
+  assert (P3 : proj s3 = bbp e (proj s) /\ e_st s3 = e_st s) by (rewrite R3, Rb, R1, S3, Sb, S1; auto).
+  destruct P3 as [P3 Q3].
+  destruct p3; [|inversion H; subst; rewrite P3, Q3; constructor|inversion H; subst; contradiction].
+  destruct (run_pass hooks orc (MLeave (e_st s)) wneg s3) as [[s4 t4] p4] eqn:E4.
+  destruct (run_pass_proj _ _ _ _ _ _ _ _ E4) as [R4 S4].
+  assert (P4 : proj (builtin_leave (e_st s) s4) = blp (e_st s) (bbp e (proj s)) /\ e_st (builtin_leave (e_st s) s4) = e_st s).
+  { rewrite bl_proj, builtin_leave_st, R4, P3, S4, Q3. auto. }
+  destruct P4 as [P4 Q4].
+  destruct p4; [|inversion H; subst; rewrite P4, Q4; constructor|inversion H; subst; contradiction].
+  destruct (run_pass hooks orc (MLeave (e_st s)) wnonneg (builtin_leave (e_st s) s4)) as [[s5 t5] p5] eqn:E5.
+  destruct (run_pass_proj _ _ _ _ _ _ _ _ E5) as [R5 S5].
+  assert (P5 : proj s5 = blp (e_st s) (bbp e (proj s)) /\ e_st s5 = e_st s) by (rewrite R5, S5, P4, Q4; auto).
+  destruct P5 as [P5 Q5].
+  destruct p5; [|inversion H; subst; rewrite P5, Q5; constructor|inversion H; subst; contradiction].
+  destruct b.
+  - destruct (run_pass hooks orc (MEnter d) wneg (set_st d s5)) as [[s6 t6] p6] eqn:E6.
+    destruct (run_pass_proj _ _ _ _ _ _ _ _ E6) as [R6 S6].
+    destruct (is_crash p6); [inversion H; subst; contradiction|].
+    destruct (run_pass hooks orc (MEnter d) wnonneg s6) as [[s7 t7] p7] eqn:E7.
+    destruct (run_pass_proj _ _ _ _ _ _ _ _ E7) as [R7 S7].
+    destruct (is_crash p7); [inversion H; subst; contradiction|].
+    destruct (run_pass hooks orc (MAfter e) wneg s7) as [[s8 t8] p8] eqn:E8.
+    destruct (run_pass_proj _ _ _ _ _ _ _ _ E8) as [R8 S8].
+    destruct (is_crash p8); [inversion H; subst; contradiction|].
+    match type of H with context [builtin_after e ?er s8] =>
+      pose proof (ba_proj e er s8) as Ra; pose proof (builtin_after_st e er s8) as Sa;
+      destruct (builtin_after e er s8) as [s9 ta] end.
+    cbn [fst] in Ra, Sa.
+    destruct (run_pass hooks orc (MAfter e) wnonneg s9) as [[s10 t10] p10] eqn:E10.
+    destruct (run_pass_proj _ _ _ _ _ _ _ _ E10) as [R10 S10].
+    destruct (is_crash p10); [inversion H; subst; contradiction|].
+    inversion H; subst.
+    assert (Px : proj (drop_run_number e s10) = drp e (bap e (blp (e_st s) (bbp e (proj s))))).
+    { rewrite dr_proj, R10, Ra, R8, R7, R6. unfold proj at 1. cbn [set_st e_rv e_clock e_ctr].
+      change (e_rv s5, e_clock s5, e_ctr s5) with (proj s5). rewrite P5. reflexivity. }
+    assert (Qx : e_st (drop_run_number e s10) = d).
+    { rewrite drop_run_number_st, S10, Sa, S8, S7, S6. reflexivity. }
+    rewrite Px, Qx. constructor.
+  - inversion H; subst. rewrite P5, Q5. constructor.
+  - inversion H; subst. destruct e; try (rewrite P5, Q5; constructor).
+    rewrite zr_proj, P5. change (e_st (zero_rn s5)) with (e_st s5). rewrite Q5. apply TPzero. reflexivity.
+Qed.
+
+(* ---- the invariant *)
+Definition lt_c (v : sv) (c : N) : Prop := match v with SSet a => a < c | _ => True end.
+Definition le_sv (u v : sv) : Prop := match u, v with SSet a, SSet b => a <= b | _, _ => True end.
+
+(* the four stamps, where set, are ordered start <= start-completion <= end <= end-completion *)
+Definition ordered (r : rvars) : Prop :=
+  le_sv (rv_sosor r) (rv_eosor r) /\ le_sv (rv_sosor r) (rv_soeor r) /\ le_sv (rv_sosor r) (rv_eoeor r) /\
+  le_sv (rv_eosor r) (rv_soeor r) /\ le_sv (rv_eosor r) (rv_eoeor r) /\ le_sv (rv_soeor r) (rv_eoeor r).
+
+Definition inv (x : rvc) : Prop :=
+  let '(r, c, _) := x in
+  lt_c (rv_sosor r) c /\ lt_c (rv_eosor r) c /\ lt_c (rv_soeor r) c /\ lt_c (rv_eoeor r) c /\
+  ordered r /\ (is_set (rv_eoeor r) -> rv_soeor r <> SEmpty).
+
+Definition fresh_end (x : rvc) : Prop := let '(r, _, _) := x in rv_soeor r = SEmpty /\ rv_eoeor r = SEmpty.
+Definition end_begun_x (x : rvc) : Prop := let '(r, _, _) := x in rv_soeor r <> SEmpty.
+Definition eoeor_unset (x : rvc) : Prop := let '(r, _, _) := x in ~ is_set (rv_eoeor r).
+
+(* a stamp that is set keeps its value *)
+Definition keep_sv (u v : sv) : Prop := match u with SSet a => v = SSet a | _ => True end.
+Definition keep (x y : rvc) : Prop :=
+  let '(r, _, _) := x in let '(r', _, _) := y in
+  keep_sv (rv_sosor r) (rv_sosor r') /\ keep_sv (rv_eosor r) (rv_eosor r') /\
+  keep_sv (rv_soeor r) (rv_soeor r') /\ keep_sv (rv_eoeor r) (rv_eoeor r').
+
+Lemma keep_refl x : keep x x.
+Proof. destruct x as [[r c] k]. unfold keep, keep_sv. repeat split; destruct (_ r); reflexivity. Qed.
+Lemma keep_trans x y z : keep x y -> keep y z -> keep x z.
+Proof.
+  destruct x as [[r c] k], y as [[r1 c1] k1], z as [[r2 c2] k2]. unfold keep, keep_sv.
+  intros (A1 & A2 & A3 & A4) (B1 & B2 & B3 & B4).
+  repeat split.
+  - destruct (rv_sosor r); auto. rewrite A1 in B1. exact B1.
+  - destruct (rv_eosor r); auto. rewrite A2 in B2. exact B2.
+  - destruct (rv_soeor r); auto. rewrite A3 in B3. exact B3.
+  - destruct (rv_eoeor r); auto. rewrite A4 in B4. exact B4.
+Qed.
+
+Ltac sv_crush :=
+  unfold inv, ordered, lt_c, le_sv, is_set, fresh_end, end_begun_x, eoeor_unset, keep, keep_sv,
+         soe, eoe, upd_soeor, upd_eoeor, upd_eosor, is_empty in *;
+  cbn [rv_rn rv_var rv_sosor rv_eosor rv_soeor rv_eoeor] in *.
+
+Lemma soe_inv x : inv x -> inv (soe x) /\ end_begun_x (soe x) /\ keep x (soe x) /\
+  (eoeor_unset x -> eoeor_unset (soe x)).
+Proof.
+  destruct x as [[r c] k]. destruct r as [rn var a b s1 s2]. sv_crush.
+  intros (L1 & L2 & L3 & L4 & (O1 & O2 & O3 & O4 & O5 & O6) & J).
+  destruct s1 as [| |q]; cbn.
+  - repeat split; auto; try discriminate; destruct a, b, s2; auto.
+  - assert (Hn : forall z, s2 <> SSet z) by (intros z Hz; apply J; [exists z; exact Hz|reflexivity]).
+    repeat split; auto; try discriminate;
+      destruct a, b, s2; cbn in *; auto; try lia; try (exfalso; eapply Hn; reflexivity);
+      try (intros [z Hz]; discriminate).
+  - repeat split; auto; try discriminate; destruct a, b, s2; auto.
+Qed.
+
+Lemma eoe_inv x : inv x -> end_begun_x x -> inv (eoe x) /\ keep x (eoe x) /\ end_begun_x (eoe x).
+Proof.
+  destruct x as [[r c] k]. destruct r as [rn var a b s1 s2]. sv_crush.
+  intros (L1 & L2 & L3 & L4 & (O1 & O2 & O3 & O4 & O5 & O6) & J) G.
+  destruct s2 as [| |q]; cbn.
+  - repeat split; auto; destruct a, b, s1; auto.
+  - repeat split; auto; destruct a, b, s1; cbn in *; auto; try lia.
+  - repeat split; auto; destruct a, b, s1; auto.
+Qed.
+
+Lemma bbp_start_inv x : inv x -> inv (bbp START_ACTIVITY x) /\ fresh_end (bbp START_ACTIVITY x).
+Proof.
+  destruct x as [[r c] k]. cbn. sv_crush. intros _. repeat split; auto; try lia.
+  intros [z Hz]. discriminate.
+Qed.
+
+Lemma bap_start_inv x : inv x -> fresh_end x -> inv (bap START_ACTIVITY x) /\
+  keep_sv (rv_sosor (fst (fst x))) (rv_sosor (fst (fst (bap START_ACTIVITY x)))) /\
+  fresh_end (bap START_ACTIVITY x).
+Proof.
+  destruct x as [[r c] k]. destruct r as [rn var a b s1 s2]. cbn. sv_crush.
+  intros (L1 & L2 & L3 & L4 & (O1 & O2 & O3 & O4 & O5 & O6) & J) [-> ->].
+  repeat split; auto; try lia; try (destruct a; auto; lia); try (intros [z Hz]; discriminate).
+Qed.
+
+Lemma bap_stop_inv x : inv x -> end_begun_x x -> inv (bap STOP_ACTIVITY x).
+Proof.
+  destruct x as [[r c] k]. destruct r as [rn var a b s1 s2]. cbn. sv_crush.
+  intros (L1 & L2 & L3 & L4 & (O1 & O2 & O3 & O4 & O5 & O6) & J) G.
+  repeat split; auto; try lia; destruct a, b, s1; cbn in *; auto; lia.
+Qed.
+
+Lemma drp_inv e x : inv x -> inv (drp e x).
+Proof. destruct x as [[r c] k]. destruct e; cbn; auto. Qed.
+Lemma zrp_inv x : inv x -> inv (zrp x).
+Proof. destruct x as [[r c] k]. cbn. auto. Qed.
+Lemma drp_keep e x : keep x (drp e x).
+Proof. destruct x as [[r c] k]. destruct e; try apply keep_refl. unfold keep, keep_sv; cbn. repeat split; destruct (_ r); reflexivity. Qed.
+Lemma zrp_keep x : keep x (zrp x).
+Proof. destruct x as [[r c] k]. unfold keep, keep_sv; cbn. repeat split; destruct (_ r); reflexivity. Qed.
+Lemma drp_fresh e x : fresh_end x -> fresh_end (drp e x).
+Proof. destruct x as [[r c] k]. destruct e; cbn; auto. Qed.
+Lemma drp_unset e x : eoeor_unset x -> eoeor_unset (drp e x).
+Proof. destruct x as [[r c] k]. destruct e; cbn; auto. Qed.
+Lemma zrp_unset x : eoeor_unset x -> eoeor_unset (zrp x).
+Proof. destruct x as [[r c] k]. cbn. auto. Qed.
+Lemma fresh_unset x : fresh_end x -> eoeor_unset x.
+Proof. destruct x as [[r c] k]. cbn. intros [_ H] [z Hz]. rewrite H in Hz. discriminate. Qed.
+
+(* the state-dependent part: while RUNNING the end-completion stamp is not set *)
+Definition invS (x : rvc) (a : st) : Prop := inv x /\ (a = RUNNING -> eoeor_unset x).
+
+(* new run drawn: the counter moved *)
+Definition ctr_of (x : rvc) : N := snd x.
+
+Lemma tr_post_inv e src d x y a :
+  dst_of e src = Some d -> tr_post e src d x y a -> invS x src ->
+  invS y a /\ (keep x y \/ (e = START_ACTIVITY /\ ctr_of y = N.succ (ctr_of x))).
+Proof.
+  intros Hd Hp [Hi Hq].
+  assert (Hsoe : forall z, inv z -> inv (soe z) /\ end_begun_x (soe z) /\ keep z (soe z) /\ (eoeor_unset z -> eoeor_unset (soe z)))
+    by (intros z Hz; apply soe_inv; exact Hz).
+  destruct e; destruct src; try discriminate; inversion Hd; subst d; clear Hd.
+  (* quiet events: nothing is written *)
+  all: try (inversion Hp; subst; cbn [bbp blp bap drp]; try discriminate;
+            (split; [split; [exact Hi|intro; try discriminate; auto]|left; apply keep_refl])).
+  (* START_ACTIVITY from CONFIGURED *)
+  1:{ destruct (bbp_start_inv x Hi) as [I1 F1].
+    assert (C1 : ctr_of (bbp START_ACTIVITY x) = N.succ (ctr_of x)) by (destruct x as [[r c] k]; reflexivity).
+    inversion Hp; subst; cbn [blp].
+    + split; [split; [exact Hi|discriminate]|left; apply keep_refl].
+    + split; [split; [exact I1|discriminate]|right; auto].
+    + split; [split; [exact I1|discriminate]|right; auto].
+    + split; [split; [apply zrp_inv; exact I1|discriminate]|right; split; [reflexivity|]].
+      destruct x as [[r c] k]; reflexivity.
+    + destruct (bap_start_inv _ I1 F1) as (I2 & _ & F2).
+      split; [split; [apply drp_inv; exact I2|intros _; apply drp_unset, fresh_unset; exact F2]|].
+      right. split; [reflexivity|]. destruct x as [[r c] k]; reflexivity. }
+  (* STOP_ACTIVITY from RUNNING *)
+  1:{ specialize (Hq eq_refl).
+    destruct (Hsoe x Hi) as (I1 & G1 & K1 & U1). specialize (U1 Hq).
+    destruct (Hsoe _ I1) as (I2 & G2 & K2 & U2). specialize (U2 U1).
+    cbn [bbp blp] in *.
+    inversion Hp; subst; cbn [bbp blp].
+    + split; [split; [exact Hi|intros _; exact Hq]|left; apply keep_refl].
+    + split; [split; [exact I1|intros _; exact U1]|left; exact K1].
+    + split; [split; [exact I2|intros _; exact U2]|left; eapply keep_trans; eassumption].
+    + discriminate.
+    + split; [split; [apply drp_inv, bap_stop_inv; assumption|discriminate]|left].
+      eapply keep_trans; [eapply keep_trans; eassumption|].
+      eapply keep_trans; [|apply drp_keep].
+      clear - U2. destruct (soe (soe x)) as [[r c] k]. destruct r as [rn var a b s1 s2].
+      unfold eoeor_unset, keep, keep_sv, is_set in *. cbn in *.
+      repeat split; try (destruct a; reflexivity); try (destruct b; reflexivity); try (destruct s1; reflexivity).
+      destruct s2; auto. exfalso. apply U2. eexists; reflexivity. }
+  (* GO_ERROR from STANDBY, DEPLOYED, CONFIGURED, RUNNING *)
+  all: destruct (Hsoe x Hi) as (I1 & G1 & K1 & U1);
+       destruct (Hsoe _ I1) as (I2 & G2 & K2 & U2);
+       cbn [bbp blp bap drp] in *;
+       inversion Hp; subst; cbn [bbp blp bap drp]; try discriminate;
+       first
+        [ split; [split; [exact Hi|exact Hq]|left; apply keep_refl]
+        | split; [split; [exact I1|intro Hr; first [discriminate|auto]]|left; exact K1]
+        | split; [split; [exact I2|intro Hr; first [discriminate|auto]]|left; eapply keep_trans; eassumption]
+        | destruct (eoe_inv _ I1 G1) as (I3 & K3 & _);
+          split; [split; [exact I3|discriminate]|left; eapply keep_trans; eassumption]
+        | destruct (eoe_inv _ I2 G2) as (I3 & K3 & _);
+          split; [split; [exact I3|discriminate]|left; eapply keep_trans; [eapply keep_trans; eassumption|exact K3]] ].
+Qed.
+
+Definition invE (s : est) : Prop := invS (proj s) (e_st s).
+
+Lemma invE_est0 init : invE (est0 init).
+Proof.
+  unfold invE, invS, proj, est0, inv, ordered, eoeor_unset, is_set, rv0. cbn.
+  repeat split; auto. - intros [z Hz]; discriminate. - intros _ [z Hz]; discriminate.
+Qed.
+
+Definition new_run (o : op) (s s' : est) : Prop :=
+  o_kind o = OEvent START_ACTIVITY /\ e_ctr s' = N.succ (e_ctr s).
+
+Lemma run_op_inv hooks i o s s' t r :
+  invE s -> run_op hooks i o s = (s', t, r) ->
+  invE s' /\ (keep (proj s) (proj s') \/ new_run o s s').
+Proof.
+  unfold invE, run_op, new_run. intros Hi.
+  destruct (o_kind o) as [e| | | |] eqn:Ek.
+  - destruct (dst_of e (e_st s)) as [d|] eqn:Hd.
+    + intro H. pose proof (transition_post _ _ _ _ _ _ _ _ _ H Hd) as Hp.
+      destruct (tr_post_inv _ _ _ _ _ _ Hd Hp Hi) as [A [B|[B1 B2]]]; split; auto.
+      right. subst e. split; [reflexivity|]. unfold ctr_of, proj in B2. exact B2.
+    + unfold transition. rewrite Hd. intro H; inversion H; subst. split; [exact Hi|left; apply keep_refl].
+  - intro H; inversion H; subst. split; [exact Hi|left; apply keep_refl].
+  - destruct (transition hooks (oracle_of i o) GO_ERROR (o_body o) s) as [[s1 t1] r1] eqn:E.
+    assert (P : invS (proj s1) (e_st s1) /\ keep (proj s) (proj s1)).
+    { destruct (dst_of GO_ERROR (e_st s)) as [d|] eqn:Hd.
+      - pose proof (transition_post _ _ _ _ _ _ _ _ _ E Hd) as Hp.
+        destruct (tr_post_inv _ _ _ _ _ _ Hd Hp Hi) as [A [B|[B1 _]]]; [auto|discriminate].
+      - unfold transition in E. rewrite Hd in E. inversion E; subst. split; [exact Hi|apply keep_refl]. }
+    destruct P as [[P1 P2] P3].
+    assert (F : invS (proj (match e_st s1 with ERROR => s1 | _ => set_st ERROR s1 end))
+                     (e_st (match e_st s1 with ERROR => s1 | _ => set_st ERROR s1 end)) /\
+                proj (match e_st s1 with ERROR => s1 | _ => set_st ERROR s1 end) = proj s1).
+    { destruct (e_st s1) eqn:Es; cbn; (split; [split; [exact P1|]|reflexivity]);
+        try (intro; discriminate). rewrite Es. discriminate. }
+    destruct F as [F1 F2].
+    destruct r1; intro H; inversion H; subst; try (split; [split; assumption|left; exact P3]);
+      (split; [exact F1|left; rewrite F2; exact P3]).
+  - unfold leave_all. destruct (run_pass hooks (oracle_of i o) (MLeave (e_st s)) wall s) as [[s1 t1] p] eqn:E.
+    destruct (run_pass_proj _ _ _ _ _ _ _ _ E) as [R1 S1].
+    destruct p; intro H; inversion H; subst; rewrite R1, S1; (split; [exact Hi|left; apply keep_refl]).
+  - unfold leave_all. destruct (run_pass hooks (oracle_of i o) (MLeave (e_st s)) wall s) as [[s1 t1] p] eqn:E.
+    destruct (run_pass_proj _ _ _ _ _ _ _ _ E) as [R1 S1].
+    destruct (is_crash p); [intro H; inversion H; subst; rewrite R1, S1; split; [exact Hi|left; apply keep_refl]|].
+    destruct (teardown_stamps s1) as [s2 ts] eqn:Et. intro H; inversion H; subst.
+    cbn [set_st e_st]. change (proj (set_st DONE s2)) with (proj s2).
+    destruct Hi as [Hi Hq]. rewrite <- R1 in Hi |- *.
+    assert (P : inv (proj s2) /\ keep (proj s1) (proj s2)).
+    { unfold teardown_stamps in Et. destruct (e_st s1).
+      1,2,3,5,6: inversion Et; subst; split; [exact Hi|apply keep_refl].
+      pose proof (soe_proj s1) as A. destruct (set_soeor_if_empty s1) as [sa d1]. cbn [fst] in A.
+      pose proof (eoe_proj sa) as B. destruct (set_eoeor_if_empty sa) as [sb d2]. cbn [fst] in B.
+      inversion Et; subst. rewrite B, A.
+      destruct (soe_inv _ Hi) as (I1 & G1 & K1 & _). destruct (eoe_inv _ I1 G1) as (I2 & K2 & _).
+      split; [exact I2|eapply keep_trans; eassumption]. }
+    destruct P as [P1 P2]. split; [split; [exact P1|discriminate]|left; exact P2].
+Qed.
+
+Lemma run_ops_inv hooks : forall ops i s s' l,
+  invE s -> run_ops hooks i ops s = (s', l) -> invE s' /\ Forall (fun x => invE (snd x)) l.
+Proof.
+  induction ops as [|o ops IH]; intros i s s' l Hi; cbn.
+  - intro H; inversion H; subst. split; [exact Hi|constructor].
+  - destruct (run_op hooks i o s) as [[s1 t] res] eqn:E.
+    destruct (run_op_inv _ _ _ _ _ _ _ Hi E) as [H1 _].
+    destruct res; try (intro H; inversion H; subst; split; [exact H1|apply Forall_cons; [exact H1|apply Forall_nil]]);
+      (destruct (run_ops hooks (N.succ i) ops s1) as [s2 l2] eqn:E2;
+       destruct (IH _ _ _ _ H1 E2) as [A B]; intro H; inversion H; subst;
+       split; [exact A|constructor; [exact H1|exact B]]).
+Qed.
+
+Lemma invE_ordered s : invE s -> ordered (e_rv s) /\ lt_c (rv_eoeor (e_rv s)) (e_clock s).
+Proof. unfold invE, invS, proj, inv. intros [(A & B & C & D & E & F) _]. auto. Qed.
+
+(* C10: over every history the four stamps, where set, are ordered start <= start-completion <=
+   end <= end-completion, in every state the history goes through *)
+Lemma stamps_ordered hooks ops init s l :
+  run_ops hooks 0 ops (est0 init) = (s, l) ->
+  ordered (e_rv s) /\ Forall (fun x => ordered (e_rv (snd x))) l.
+Proof.
+  intro H. destruct (run_ops_inv hooks _ _ _ _ _ (invE_est0 init) H) as [A B].
+  split; [apply invE_ordered; exact A|].
+  eapply Forall_impl; [|exact B]. intros x Hx. apply invE_ordered; exact Hx.
+Qed.
+
+(* C10: each stamp is written at most once per run: in every state a history can reach, every
+   operation leaves every stamp that is set exactly as it is, unless it is a START_ACTIVITY that
+   draws a new run number (which begins a new run and clears the three later stamps) *)
+Lemma stamps_once hooks ops init s l i o s' t r :
+  run_ops hooks 0 ops (est0 init) = (s, l) -> run_op hooks i o s = (s', t, r) ->
+  keep (proj s) (proj s') \/ new_run o s s'.
+Proof.
+  intros H Hop. destruct (run_ops_inv hooks _ _ _ _ _ (invE_est0 init) H) as [A _].
+  exact (proj2 (run_op_inv _ _ _ _ _ _ _ A Hop)).
+Qed.
